@@ -22,7 +22,7 @@ import (
 // AlphaSQL: one representative per byte role in the SQL dispatch table and in
 // every look-ahead test (both ends of range tests included).
 var AlphaSQL = []string{
-	"\x00", "\n", " ", "\xa0", "'", "\"", "`", "\\", "#", "$", "-", "/", "*", "!", ".",
+	"\x00", "\n", " ", "\t", "\v", "\xa0", "'", "\"", "`", "\\", "#", "$", "-", "/", "*", "!", ".",
 	"0", "1", "9", "e", "E", "x", "b", "q", "n", "u", "N", "d", "f", "&", "(", ")", "[", "]", "{", "}",
 	",", ";", ":", "=", "<", ">", "|", "@", "?", "+", "%", "~", "^", "a", "_", "\x7f", "\x80", "\xe9",
 }
@@ -34,7 +34,7 @@ var CoreSQL = []string{
 
 var AlphaHTML = []string{
 	"<", ">", "/", "=", "'", "\"", "`", "!", "-", "?", "%", "[", "]", "&", "#", ";", "x", "X", "0", "1", "a", "f", "z",
-	"\x00", " ", "\n", "\x7f", "\x80", "\xff",
+	"\x00", " ", "\n", "\t", "\f", "\x7f", "\x80", "\xff",
 }
 
 var CoreHTML = []string{"<", ">", "/", "=", "'", "\"", "`", "!", "-", "%", "a", "\x00", " ", "?"}
